@@ -27,6 +27,7 @@ type Oblig struct {
 	Quant   bool
 	Inputs  []namedTerm // for counterexample extraction
 	Result  *SolverResult
+	Candidate *SolverResult // sat answer after dropping quantified facts (needs replay to be believed)
 	Vacuity bool
 }
 
@@ -45,6 +46,7 @@ type FuncRun struct {
 	params   map[string]Val
 	inputs   []namedTerm
 	notes    []string
+	canaries []*Oblig // reachability checks: each PC must not be unsat
 	inlined  map[string]bool
 	assumedCallees map[string]bool
 }
@@ -376,6 +378,7 @@ func (fr *Frame) exec(st *State, args []Val) (*State, Val) {
 			if d, ok := ins.(*ssa.Defer); ok {
 				c := &ssa.Alloc{Comment: "$defer"}
 				fr.deferCells[d] = c
+				cellID(c)
 				st.cells[c] = scalar(False, types.Typ[types.Bool])
 			}
 		}
@@ -471,6 +474,7 @@ func (fr *Frame) execBlock(b *ssa.BasicBlock, st *State, in map[*ssa.BasicBlock]
 				}
 			}
 			fr.atHook("return", "", ins, st)
+			cellID(fr.retCell)
 			st.cells[fr.retCell] = rv
 			fr.returns = append(fr.returns, edgeState{b, st})
 			return
@@ -669,12 +673,13 @@ func (fr *Frame) execAlloc(x *ssa.Alloc, st *State) Val {
 		for _, l := range shapeOf(u.Elem()) {
 			key := elemKey(u.Elem()) + l.suffix
 			h := st.H(key, ArrSort(SInt, ArrSort(SInt, l.sort)))
-			z := flatten(zeroVal(leafType(l)))[0]
+			z := zeroOfSort(l.sort)
 			st.setH(key, Store(h, a, ConstArr(ArrSort(SInt, l.sort), z)))
 		}
 		return scalar(a, x.Type())
 	}
 	// plain cell
+	cellID(x)
 	st.cells[x] = zeroVal(et)
 	return Val{K: KAddr, T: x.Type(), A: &Addr{Kind: ACell, Cell: x, T: et}}
 }
@@ -1071,7 +1076,7 @@ func (fr *Frame) execMakeSlice(x *ssa.MakeSlice, st *State) Val {
 	for _, l := range shapeOf(et) {
 		key := elemKey(et) + l.suffix
 		h := st.H(key, ArrSort(SInt, ArrSort(SInt, l.sort)))
-		z := flatten(zeroVal(leafType(l)))[0]
+		z := zeroOfSort(l.sort)
 		st.setH(key, Store(h, arr, ConstArr(ArrSort(SInt, l.sort), z)))
 	}
 	it := types.Typ[types.Int]
@@ -1236,6 +1241,7 @@ func (fr *Frame) execRange(x *ssa.Range, st *State) Val {
 	it := &IterState{Map: m, MapT: mt, Site: x}
 	// visited set lives in a synthetic cell so that loops havoc it and invariants can mention it
 	cell := fr.iterCell(x)
+	cellID(cell)
 	st.cells[cell] = scalar(ConstArr(ArrSort(keySort(mt.Key()), SBool), False), nil)
 	return Val{K: KIter, It: it}
 }
